@@ -199,7 +199,7 @@ func (s *scheduler) pick(exclude *gor) *gor {
 		if len(rs) > 0 {
 			// delay-bounded exploration: the default scheduler runs the lowest-numbered runnable
 			// goroutine; every other pick costs one deviation from the budget
-			if s.r.ex.Opts.ExploreSched && len(rs) > 1 && s.preemptions < s.r.ex.Opts.Preemptions {
+			if s.r.ex.Opts.ExploreSched && s.r.flags["noExplore"] == 0 && len(rs) > 1 && s.preemptions < s.r.ex.Opts.Preemptions {
 				k := s.r.choose(len(rs))
 				if k != 0 {
 					s.preemptions++
@@ -323,7 +323,7 @@ func (s *scheduler) block(g *gor, why string, ready func() bool) {
 
 // yieldPoint offers a preemptive context switch before a visible operation (exploration mode).
 func (s *scheduler) yieldPoint(g *gor, what string) {
-	if !s.r.ex.Opts.ExploreSched {
+	if !s.r.ex.Opts.ExploreSched || s.r.flags["noExplore"] != 0 {
 		return
 	}
 	if s.preemptions >= s.r.ex.Opts.Preemptions {
